@@ -235,6 +235,13 @@ CHECKS["C11"]["text"] += " E2 scenarios S6/S6b: a request whose reply is dropped
 CHECKS["C13"]["text"] += " Wide scenario: 1200 (thorough 6000) requests in flight at once all reach the chain and are answered as when handled one at a time."
 CHECKS["C15"]["text"] += " Binding run: listeners built by the real listen4 from listen addresses (wildcard / own address of each interface, without and with %interface) must regard themselves as bound exactly to the interface the address names; the decision table is judged on them."
 CHECKS["C16"]["text"] += " Scenarios S6/S6b (reply dropped at the send side, then two clients) and S7 (the lease time passes between a client's DISCOVER and its renewal, a new client follows). Timers made by time.AfterFunc in the instrumented code are threads of the controlled run that become enabled when the virtual clock reaches the deadline; other runtime timers are reported as a cap (exhaustive=false). Oracle added: an address promised to a client (OFFER/ACK with its lease time) is not given to another client before the promise runs out."
+# ---- additions of seed round 15
+for k in ("C04","C06"):
+    CHECKS[k]["text"] += " E4: the E2 scenario bodies and 8 goroutines cycling allocate/free inside one bitmap word run free under the Go race detector (the cooperative scheduler treats the bitset library as atomic)."
+CHECKS["C09"]["text"] += " Many-hints sweep: one IA_PD with 63/64/65/70 hints obtained in one message and renewed exactly."
+CHECKS["C08"]["text"] += " Many-hints sweep as in C09."
+CHECKS["C18"]["text"] += " Ports with leading zeros are decimal; 0x/0b/0o/underscore spellings are unparseable."
+CHECKS["C19"]["text"] += " Search-domain labels with multi-byte characters around the 63-octet limit are among the configuration atoms."
 ALL = ["C%02d" % i for i in range(1, 21)]
 NA_REASON = "check not built yet in this session (planned, see DESIGN.md section 5); will be claimed once its machinery exists"
 m = {
